@@ -295,6 +295,12 @@ func onlyBytes(fm *Frame) error {
 	defer func() { <-valuesDone }()
 
 	_, err := io.Copy(fm.ByteOutput(), fm.InputFile())
+	if err != nil {
+		// Keep draining the byte input, like the value input above: otherwise
+		// a writer blocked on a full pipe never closes the value channel this
+		// command is waiting for, and the pipeline hangs.
+		_, _ = io.Copy(blackholeWriter{}, fm.InputFile())
+	}
 	return err
 }
 
@@ -311,13 +317,17 @@ func onlyValues(fm *Frame) error {
 
 	// Forward values.
 	out := fm.ValueOutput()
+	var errOut error
 	for v := range fm.InputChan() {
-		err := out.Put(v)
-		if err != nil {
-			return err
+		// Keep draining the value input after an output error, like the byte
+		// input above: otherwise a writer blocked on the full value channel
+		// never closes the byte input this command is waiting for, and the
+		// pipeline hangs.
+		if errOut == nil {
+			errOut = out.Put(v)
 		}
 	}
-	return nil
+	return errOut
 }
 
 type blackholeWriter struct{}
